@@ -92,7 +92,7 @@ type ActivateResponse struct {
 type RevokeRequest struct {
 	UniqueIdentifier string           `kmip:"UNIQUE_IDENTIFIER"`
 	RevocationReason RevocationReason `kmip:"REVOCATION_REASON,required"`
-	CompromiseDate   time.Time        `kmip:"COMPROMISE_DATE"`
+	CompromiseDate   time.Time        `kmip:"COMPROMISE_OCCURRENCE_DATE"`
 }
 
 // RevokeResponse is a Revoke Response Payload
